@@ -10,9 +10,11 @@ package cache
 //@ func newUUIDSet
 //@ modifies nothing
 //@ ensures fresh(result)
-//@ ensures forall u: string :: (u in result) == (exists i: int :: 0 <= i && i < len(uuids) && uuids[i] == u)
+//@ ensures forall i: int :: 0 <= i && i < len(uuids) ==> (uuids[i] in result)
+//@ ensures forall u: string :: (u in result) ==> (exists i: int :: 0 <= i && i < len(uuids) && uuids[i] == u)
 //@ loop 1 invariant s != nil && fresh(s)
-//@ loop 1 invariant forall u: string :: (u in s) == (exists i: int :: 0 <= i && i <= rangeindex && uuids[i] == u)
+//@ loop 1 invariant forall i: int :: 0 <= i && i <= rangeindex ==> (uuids[i] in s)
+//@ loop 1 invariant forall u: string :: (u in s) ==> (exists i: int :: 0 <= i && i <= rangeindex && uuids[i] == u)
 
 //@ func (uuidset).add
 //@ requires s != nil
